@@ -411,11 +411,11 @@ func (fc *funcContext) mayModify(id *ast.Ident, body *ast.BlockStmt) bool {
 		case *ast.UnaryExpr:
 			modified = modified || (n.Op == token.AND && rootIs(n.X))
 		case *ast.SliceExpr:
-			if _, isArray := fc.pkgCtx.TypeOf(n.X).Underlying().(*types.Array); isArray {
+			if _, isArray := fc.typeOf(n.X).Underlying().(*types.Array); isArray {
 				modified = modified || rootIs(n.X)
 			}
 		case *ast.SelectorExpr:
-			if s, ok := fc.pkgCtx.Selections[n]; ok && s.Kind() == types.MethodVal && rootIs(n.X) {
+			if s, ok := fc.selectionOf(n); ok && s.Kind() == types.MethodVal && rootIs(n.X) {
 				if _, ptrRecv := s.Obj().Type().(*types.Signature).Recv().Type().(*types.Pointer); ptrRecv {
 					modified = true
 				}
